@@ -74,7 +74,7 @@ def make_case(prop, seed, i, tier):
         variant = "resim"
     elif r < 0.20:
         variant = "resume"
-    elif r < 0.26 and not any(t["progress"] >= 1.0 for t in spec["tasks"]):
+    elif r < 0.26:
         variant = "keeplog"
     elif r < 0.32:
         variant = "edit_resim"
